@@ -233,10 +233,23 @@ def run_cases(prop, spec, cases, stats, log):
     return mismatches, violations
 
 def minimise(md, cfg, ops, still_fails):
-    """delta-debug the operation list (keeps the first op, usually start)"""
+    """delta-debug the operation list (keeps the first op, usually start); long lists (the counter walks of pinned
+    replays) are only cut by halving from the end, and the whole search is bounded in time"""
     ops = list(ops)
+    t_end = time.time() + 120
+    while len(ops) > 400 and time.time() < t_end:
+        half = ops[:max(1, len(ops) // 2)]
+        try:
+            if still_fails(md, cfg, half):
+                ops = half
+                continue
+        except Exception:
+            pass
+        break
+    if len(ops) > 400:
+        return ops
     changed = True
-    while changed and len(ops) > 1:
+    while changed and len(ops) > 1 and time.time() < t_end:
         changed = False
         for i in range(len(ops) - 1, 0, -1):
             cand = ops[:i] + ops[i + 1:]
@@ -379,9 +392,14 @@ def run_check(prop, spec, tier, replay=None):
     elif mismatches or proof_broken:
         # the tie or a proof obligation broke: look for an input on which the property itself fails
         found = None
+        t_search = time.time()
+        tried = 0
         for m in mismatches:
             if m["kind"] != "trace":
                 continue
+            if tried >= 6 or time.time() - t_search > 400:
+                break          # the search for a failing input is bounded; the violation is reported either way
+            tried += 1
             if m.get("md") is None:
                 found = (m, m["ops"], {"first_diff": m["detail"]})
                 break
